@@ -1333,6 +1333,7 @@ class ListNode(SyntaxNodeBase):
         if not new_vals:
             self._nodes = []
             return
+        new_vals = self._keep_own_nodes(new_vals)
         new_vals_cache = {id(v): v for v in new_vals}
         # bind shortcuts to single site in new values
         for shortcut in self._shortcuts:
@@ -1430,6 +1431,37 @@ class ListNode(SyntaxNodeBase):
                         check_for_orphan_jump(new_vals[i])
                 else:
                     check_for_orphan_jump(new_vals[i])
+
+    def _keep_own_nodes(self, new_vals):
+        """
+        Lets the nodes of this list stand in for foreign nodes that hold the very same value.
+
+        Some callers (e.g. the data-block importances) collect *copies* of the nodes of this list.
+        No shortcut can be bound to a copy, and the original tokens, paddings and comments would all be
+        replaced. If none of the new nodes is a node of this list, every position that still holds exactly
+        the value (and type) of the original node at that position keeps the original node.
+
+        :param new_vals: the new values (a list of ValueNodes)
+        :type new_vals: list
+        :returns: the list to rebuild this node from.
+        :rtype: list
+        """
+        own = list(self)
+        own_ids = {id(node) for node in own}
+        if any(id(val) in own_ids for val in new_vals):
+            return new_vals
+        ret = []
+        for i, val in enumerate(new_vals):
+            if (
+                i < len(own)
+                and isinstance(own[i], ValueNode)
+                and own[i].type == val.type
+                and own[i].value == val.value
+            ):
+                ret.append(own[i])
+            else:
+                ret.append(val)
+        return ret
 
     @staticmethod
     def _inherit_padding(node, shortcut):
